@@ -110,9 +110,11 @@ def iterPrefix (s : NodeState) (pfx : Bytes) : List (Bytes × VV) :=
 /-- The monotonic property `(last_gc_version, max_version)`. -/
 def frontier (s : NodeState) : Nat × Nat := (s.lastGc, s.maxVersion)
 
-/-- Lexicographic `≤` on frontiers, as a `Bool`. -/
-def frontierLe (a b : Nat × Nat) : Bool := a.1 < b.1 || (a.1 == b.1 && a.2 ≤ b.2)
-def frontierLt (a b : Nat × Nat) : Bool := a.1 < b.1 || (a.1 == b.1 && a.2 < b.2)
+/-- Lexicographic `≤` / `<` on frontiers. -/
+def frontierLe (a b : Nat × Nat) : Prop := a.1 < b.1 ∨ (a.1 = b.1 ∧ a.2 ≤ b.2)
+def frontierLt (a b : Nat × Nat) : Prop := a.1 < b.1 ∨ (a.1 = b.1 ∧ a.2 < b.2)
+instance (a b : Nat × Nat) : Decidable (frontierLe a b) := by unfold frontierLe; infer_instance
+instance (a b : Nat × Nat) : Decidable (frontierLt a b) := by unfold frontierLt; infer_instance
 
 /-- `set_versioned_value`. -/
 def setVersionedValue (s : NodeState) (key : Bytes) (u : VV) : NodeState × List Event :=
@@ -216,21 +218,26 @@ def applyKvs (curMax now : Nat) : NodeState → List KVM → NodeState × List E
       let (s'', evs) := applyKvs curMax now s' rest
       (s'', ev ++ evs)
 
+/-- The state the key-value loop of `apply_delta` starts from: the copy itself, or the wiped copy. -/
+def applyBase (s : NodeState) (nd : NodeDelta) : NodeState :=
+  if s.checkDeltaStatus nd = .applyAfterReset then s.resetNode nd.lastGc else s
+
 /-- `apply_delta`. -/
 def applyDelta (s : NodeState) (nd : NodeDelta) (now : Nat) :
     Except Panic (NodeState × DeltaStatus × List Event) :=
-  match s.checkDeltaStatus nd with
-  | .reject => .ok (s, .reject, [])
-  | st =>
-    let s0 := if st = .applyAfterReset then s.resetNode nd.lastGc else s
-    let (s1, evs) := applyKvs s0.maxVersion now s0 nd.kvs
-    if nd.maxVersion ≥ s1.maxVersion then .ok ({ s1 with maxVersion := nd.maxVersion }, st, evs)
+  if s.checkDeltaStatus nd = .reject then .ok (s, .reject, [])
+  else
+    if (applyKvs (s.applyBase nd).maxVersion now (s.applyBase nd) nd.kvs).1.maxVersion ≤ nd.maxVersion then
+      .ok ({ (applyKvs (s.applyBase nd).maxVersion now (s.applyBase nd) nd.kvs).1 with
+              maxVersion := nd.maxVersion },
+           s.checkDeltaStatus nd,
+           (applyKvs (s.applyBase nd).maxVersion now (s.applyBase nd) nd.kvs).2)
     else .error .applyDeltaMaxVersion
 
 /-- `stale_key_values(floor)` followed by `sorted_unstable_by_key(version)`. -/
 def staleKvs (s : NodeState) (floor : Nat) : List (Bytes × VV) :=
-  (s.kvs.filter (fun p => decide (p.2.version > floor))).mergeSort
-    (fun a b => decide (a.2.version ≤ b.2.version))
+  sortBy (fun a b => decide (a.2.version ≤ b.2.version))
+    (s.kvs.filter (fun p => decide (p.2.version > floor)))
 
 def toKVM (p : Bytes × VV) : KVM := ⟨p.1, p.2.value, p.2.version, p.2.status.toM⟩
 
